@@ -1,8 +1,124 @@
 import GB.Base.Proto
+import GB.C19.Model
+/-
+  C19 driver.  Lines (hex `x…`; `m:` multimap = `xKEY:xV1,xV2` joined by `;` sorted by key):
+
+    disp x<raw query> p:<header lines>  => seen=m:<r.Header at the bridge> q=m:<r.URL.Query() at the bridge>
+                                           h=http|ws|grpcweb|grpcws st=<status> sp=x<sub-protocol>|- rq=m:<query at the router>|-
+    mdq  x<param> x<raw query>          => q=m:<url.Values before> md=m:<metadata> q2=m:<url.Values after> mod=0|1
+
+  `dispatch` is proved equal to the RFC 7230 / media-type specification (C19_ws, C19_grpcws,
+  C19_grpcweb, C19_http), so a deviation of the implementation from `dispatch` is a violation of
+  the specification — except in the band the specification leaves open (a media type that starts
+  with `application/grpc-web` but is neither it nor a `+suffix` of it), where it is only a DIFF.
+-/
 namespace GB.C19
 open GB GB.Proto
 
-/-- stub: replaced when the C19 slice is built -/
-def handle : Handler := fun _ _ => "BAD c19 unimplemented"
+def dropPrefix? (s p : String) : Option String :=
+  if s.startsWith p then some (s.drop p.length).toString else none
+
+def parseHexList (s : String) : Option (List Bytes) :=
+  if s.isEmpty then some [] else (s.splitOn ",").mapM parseHex
+
+def parseEntry (s : String) : Option (Bytes × List Bytes) :=
+  match s.splitOn ":" with
+  | [k, vs] => do let k ← parseHex k; let vs ← parseHexList vs; pure (k, vs)
+  | _ => none
+
+def parseM (s : String) : Option MD :=
+  (dropPrefix? s "m:").bind fun b => if b.isEmpty then some [] else (b.splitOn ";").mapM parseEntry
+
+def bytesLt : Bytes → Bytes → Bool
+  | [], [] => false
+  | [], _ :: _ => true
+  | _ :: _, [] => false
+  | a :: as, b :: bs => if a < b then true else if b < a then false else bytesLt as bs
+
+def insertBy {α} (lt : α → α → Bool) (e : α) : List α → List α
+  | [] => [e]
+  | x :: xs => if lt e x then e :: x :: xs else x :: insertBy lt e xs
+
+def sortBy {α} (lt : α → α → Bool) (l : List α) : List α := l.foldl (fun acc e => insertBy lt e acc) []
+
+def sortMD (md : MD) : MD := sortBy (fun a b => bytesLt a.1 b.1) md
+/-- keys sorted and the values of every key sorted (multiset view) -/
+def canonMD (md : MD) : MD := (sortMD md).map (fun e => (e.1, sortBy bytesLt e.2))
+
+def showMD (md : MD) : String :=
+  "m:" ++ ";".intercalate ((sortMD md).map fun e => toHex e.1 ++ ":" ++ ",".intercalate (e.2.map toHex))
+
+def field (outs : List String) (name : String) : Option String :=
+  outs.findSome? (fun s => dropPrefix? s (name ++ "="))
+
+def showBridge : Bridge → String
+  | .http => "http" | .ws => "ws" | .grpcweb => "grpcweb" | .grpcws => "grpcws"
+
+def hdrsOf (seen : MD) : Hdrs :=
+  { connection := mdLookup seen (ascii "Connection")
+    upgrade := mdLookup seen (ascii "Upgrade")
+    protocol := mdLookup seen (ascii "Sec-Websocket-Protocol")
+    contentType := mdLookup seen (ascii "Content-Type") }
+
+/-- the band the specification leaves open -/
+def openBand (ct : Bytes) : Bool :=
+  let mt := trimOWS (cutSemi ct)
+  mt.length > grpcWebBase.length && equalFold (mt.take grpcWebBase.length) grpcWebBase &&
+    (mt.drop grpcWebBase.length).head? != some 43
+
+def handle : Handler
+  | ["disp", _m, _rq, _lines], outs =>
+    if outs.head? == some "rejected" then "OK b=disp-rejected-by-net/http" else
+    match field outs "seen", field outs "q", field outs "h", field outs "st", field outs "sp", field outs "rq" with
+    | some seenS, some qS, some h, some st, some sp, some rq =>
+      match parseM seenS, parseM qS with
+      | some seen, some q =>
+        let hd := hdrsOf seen
+        let m := dispatch hd
+        let ms := showBridge m
+        let upg := m == .ws || m == .grpcws
+        if h != ms then
+          if openBand (first hd.contentType) && !upg && (h == "http" || h == "grpcweb") then s!"DIFF model={ms}"
+          else s!"VIOL dispatched to {h}, header semantics say {ms}"
+        else if st == "101" && !upg then s!"VIOL 101 switching protocols from the {h} handler"
+        else if sp == toHex tokGrpcWS && m != .grpcws then s!"VIOL grpc-websockets negotiated by the {h} handler"
+        else if st == "101" && m == .grpcws && sp != toHex tokGrpcWS then s!"DIFF model=sp:{toHex tokGrpcWS}"
+        else
+          -- what the router (and so the message binding) sees of the query
+          let expQ : Option MD := match m with
+            | .ws => some (parseMetadataQuery [] q).query
+            | .http => some q
+            | _ => none
+          match expQ with
+          | some eq =>
+            (match (if rq == "-" then none else parseM rq) with
+             | none => s!"DIFF model=rq:{showMD eq}"
+             | some rqm =>
+               if m == .ws && rqm.any (fun e => isMetaKey defaultParam e.1) then "VIOL metadata entries left in the parameters bound to the message"
+               else if canonMD rqm != canonMD eq && sortMD rqm != sortMD eq then s!"DIFF model=rq:{showMD eq}"
+               else s!"OK nt b=disp-{ms}-{st}")
+          | none => if rq != "-" then s!"DIFF model=rq:-" else s!"OK nt b=disp-{ms}-{st}"
+      | _, _ => "BAD disp md"
+    | _, _, _, _, _, _ => "BAD disp fields"
+  | ["mdq", ph, _rq], outs =>
+    match parseHex ph, field outs "q", field outs "md", field outs "q2", field outs "mod" with
+    | some param, some qS, some mdS, some q2S, some mod =>
+      match parseM qS, parseM mdS, parseM q2S with
+      | some q, some md, some q2 =>
+        let r := parseMetadataQuery param q
+        let mmod := if r.modified then "1" else "0"
+        if canonMD md != canonMD r.md then s!"VIOL metadata is not the valid _metadata[k]=v entries model={showMD r.md}"
+        else if sortMD q2 != sortMD r.query then s!"VIOL remaining parameters are not the non-metadata entries model={showMD r.query}"
+        else if mod != mmod then s!"DIFF model=mod:{mmod}"
+        else
+          -- order of values under one key is map-order dependent only when two query keys collide
+          let p := if param.isEmpty then defaultParam else param
+          let ks := (q.filter (fun e => isMetaKey p e.1)).map (fun e => lower (mdKeyOf p e.1))
+          let collide := ks.any (fun k => (ks.filter (· == k)).length > 1)
+          if !collide && sortMD md != sortMD r.md then s!"DIFF model={showMD r.md}"
+          else s!"OK{if r.modified then " nt" else ""} b=mdq-{if r.md.isEmpty then "nomd" else "md"}-{if collide then "collide" else "plain"}"
+      | _, _, _ => "BAD mdq md"
+    | _, _, _, _, _ => "BAD mdq fields"
+  | _, _ => "BAD c19 line"
 
 end GB.C19
